@@ -2,8 +2,10 @@ package props
 
 import (
 	"fmt"
+	"sort"
 	"time"
 
+	"verifsim/ref"
 	"verifsim/stubs"
 )
 
@@ -34,6 +36,26 @@ func runC04(r *R) {
 		sp.Startup = genStartup(w, 6)
 	}
 	sp.RPS = genRPS(w, 200)
+	// the profile as the documentation defines it (independent of pandora's schedules): no shot may come before the
+	// instant the configured profile reaches it, whatever token times the schedule hands out
+	if offs, fd, _, err := ref.OffsetsOf(sp.RPS.Conf); err == nil {
+		sort.Slice(offs, func(i, j int) bool { return offs[i] < offs[j] })
+		sp.RPS.RefOffs, sp.RPS.FiniteDur = offs, fd
+	}
+	// one run in five: the finite profile is followed by an `unlimited` part (as fast as the guns can, for a while)
+	if w.Draw(5) == 0 {
+		sp.RPS.Tail = []time.Duration{500 * time.Millisecond, 2 * time.Second, 3 * time.Second}[w.Draw(3)]
+		var list []interface{}
+		if l, ok := sp.RPS.Conf.([]interface{}); ok {
+			list = append(list, l...)
+		} else {
+			list = append(list, sp.RPS.Conf)
+		}
+		list = append(list, map[string]interface{}{"type": "unlimited", "duration": sp.RPS.Tail.String()})
+		sp.RPS.Conf = list
+		sp.RPS.Desc = fmt.Sprintf("[%s, unlimited(%v)]", sp.RPS.Desc, sp.RPS.Tail)
+		sp.RPS.Dur += sp.RPS.Tail
+	}
 	sp.Ammo = 0
 	sp.Discard = w.Draw(3) != 0
 	interval := time.Second
@@ -41,6 +63,10 @@ func runC04(r *R) {
 		interval = sp.RPS.Dur / time.Duration(sp.RPS.Tokens)
 	}
 	sp.Shots = genShots(w, interval)
+	if sp.RPS.Tail > 0 && (sp.Shots.Kind == "zero" || sp.Shots.Base < 50*time.Millisecond) {
+		// (an unlimited part with a target that answers in no time would never let the simulated clock advance)
+		sp.Shots.Kind, sp.Shots.Base = "fixed", 50*time.Millisecond
+	}
 	sp.Stalls = w.Draw(5) == 0
 	// a caller's cancel landing on a token's scheduled instant, or somewhere in the run: a cancelled run shoots or drops
 	// the token it holds, it never reports it as discarded unless it was 2 s late
@@ -70,7 +96,28 @@ func checkTiming(r *R, sp engSpec, res *engResult) {
 	shotIn := map[int]time.Duration{}
 	late := 0
 	cancelled := false
+	var firstCall time.Duration = -1
+	nshot := 0
 	for _, e := range res.Evs {
+		if (e.Kind == "left" || e.Kind == "next") && e.Src == "rps" && firstCall < 0 {
+			firstCall = e.CallT // the profile starts with the first call on it, not before that call began
+		}
+		if e.Kind == "shoot-in" && !sp.PerInstance && firstCall >= 0 && (sp.RPS.RefOffs != nil || sp.RPS.Tail > 0) {
+			// the k-th shot of the run against the k-th operation of the configured profile (reference arithmetic)
+			due, what := time.Duration(-1), ""
+			if nshot < len(sp.RPS.RefOffs) {
+				due, what = sp.RPS.RefOffs[nshot], fmt.Sprintf("operation %d of the profile is due %v after its start", nshot, sp.RPS.RefOffs[nshot])
+			} else if sp.RPS.Tail > 0 {
+				due, what = sp.RPS.FiniteDur, fmt.Sprintf("the %d operations of the finite parts are used up and the unlimited part begins %v after the start", len(sp.RPS.RefOffs), sp.RPS.FiniteDur)
+			}
+			if due >= 0 {
+				tol := 2*time.Microsecond + due/1_000_000_000
+				if e.T+tol < firstCall+due {
+					r.Fail("early-shot/against-profile", "shot %d of the run was fired %v after the profile's start (first call on the schedule at %v); %s (profile %s)", nshot, e.T-firstCall, firstCall, what, sp.RPS.Desc)
+				}
+			}
+			nshot++
+		}
 		switch e.Kind {
 		case "cancel":
 			// the property quantifies over profiles and response-time histories, not over cancels: after the caller's
